@@ -61,6 +61,37 @@ def isinstance_classes(repo, m, test) -> Optional[Set[str]]:
     return out
 
 
+def _run_differential(ctx, program):
+    """one program before and after NV transpilation -> None when both behave alike, else (construct, what differs)"""
+    from .. import session as S
+    label, texts = program
+    w1 = S.ExecutorWorld(ctx, S.scenario(max_steps=400000))
+    w1.init_app(0, 3)
+    for text in texts:
+        r1 = w1.run(w1.parse(text))
+        if r1[0] != "ok":
+            raise AnalysisError(f"the checker's program `{label}` does not run on the executor in the vanilla flavour: {r1}")
+    w2 = S.ExecutorWorld(ctx, S.scenario(max_steps=400000))
+    w2.init_app(0, 3)
+    for text in texts:
+        t_ = S.nv_transpile(w2, w2.parse(text))
+        if t_[0] != "ok":
+            return ("transpile:accepts-every-program", f"`{label}`: transpile() {t_}")
+        r2 = w2.run(t_[1])
+        if r2[0] != "ok":
+            return ("transpiled-program:runs", f"`{label}`: the transpiled program {r2} on the executor; the original runs")
+    regs1 = {k_: v_ for k_, v_ in w1.registers().items() if k_[0] in "RCM"}
+    regs2 = {k_: v_ for k_, v_ in w2.registers().items() if k_[0] in "RCM" and k_ in regs1}
+    if regs1 != regs2:
+        diff = {k_: (regs1.get(k_), regs2.get(k_)) for k_ in regs1 if regs1.get(k_) != regs2.get(k_)}
+        return ("jump-targets:same-classical-outcome", f"`{label}`: registers after the original / the transpiled program differ: {diff} "
+                                                       "(R5 counts the basic blocks that ran: a jump of the transpiled program lands somewhere else)")
+    why = S.same_behaviour(S.trace_unitaries(w1.trace, 3), S.trace_unitaries(w2.trace, 3))
+    if why is not None:
+        return ("gates:same-operator-on-the-executed-path", f"`{label}`: {why}; original gates {[t[:2] for t in w1.trace]}, transpiled {[(t[0], t[1], round(t[2], 4) if t[2] is not None else None) for t in w2.trace]}")
+    return None
+
+
 def check_differential(ctx, rule="C08.X"):
     """NV transpilation decided by differential execution: programs in the vanilla flavour are parsed by the repository's parser,
     run by the repository's Executor (quantum hooks recorded), transpiled by NVSubroutineTranspiler.transpile() and run again.  Both
@@ -110,44 +141,14 @@ def check_differential(ctx, rule="C08.X"):
     programs.append(("every C register in use", [head.format(a=1, b=1) + "".join(f"set C{k} {k + 40}\n" for k in range(16)) + "h Q0\ncnot Q0 Q1\nadd R5 R5 R6\n"]))
     programs.append(("the constant of the no-op in the program", [head.format(a=0, b=1) + "bez R0 L1\nh Q0\nL1:\nset C15 1337\nset C14 1337\nx Q1\nbez R0 L2\nadd R5 R5 R6\nL2:\nt Q2\nadd R5 R5 R7\n"]))
     bad = {}
-    n = 0
+    n = len(programs)
     seen_branches = set()
     try:
-        for label, texts in programs:
-            n += 1
-            w1 = S.ExecutorWorld(ctx, S.scenario(max_steps=400000))
-            w1.init_app(0, 3)
-            for text in texts:
-                r1 = w1.run(w1.parse(text))
-                if r1[0] != "ok":
-                    raise AnalysisError(f"the checker's program `{label}` does not run on the executor in the vanilla flavour: {r1}")
-            w2 = S.ExecutorWorld(ctx, S.scenario(max_steps=400000))
-            w2.init_app(0, 3)
-            failed = False
-            for text in texts:
-                t_ = S.nv_transpile(w2, w2.parse(text))
-                if t_[0] != "ok":
-                    bad.setdefault("transpile:accepts-every-program", f"`{label}`: transpile() {t_}")
-                    failed = True
-                    break
-                r2 = w2.run(t_[1])
-                if r2[0] != "ok":
-                    bad.setdefault("transpiled-program:runs", f"`{label}`: the transpiled program {r2} on the executor; the original runs")
-                    failed = True
-                    break
-            if failed:
-                continue
-            seen_branches.add(label.split()[0])
-            regs1 = {k_: v_ for k_, v_ in w1.registers().items() if k_[0] in "RCM"}
-            regs2 = {k_: v_ for k_, v_ in w2.registers().items() if k_[0] in "RCM" and k_ in regs1}
-            if regs1 != regs2:
-                diff = {k_: (regs1.get(k_), regs2.get(k_)) for k_ in regs1 if regs1.get(k_) != regs2.get(k_)}
-                bad.setdefault("jump-targets:same-classical-outcome", f"`{label}`: registers after the original / the transpiled program differ: {diff} "
-                                                                     "(R5 counts the basic blocks that ran: a jump of the transpiled program lands somewhere else)")
-                continue
-            why = S.same_behaviour(S.trace_unitaries(w1.trace, 3), S.trace_unitaries(w2.trace, 3))
-            if why is not None:
-                bad.setdefault("gates:same-operator-on-the-executed-path", f"`{label}`: {why}; original gates {[t[:2] for t in w1.trace]}, transpiled {[(t[0], t[1], round(t[2], 4) if t[2] is not None else None) for t in w2.trace]}")
+        for (label, texts), res in zip(programs, S.parallel_map(ctx, _run_differential, programs)):
+            if res is None:
+                seen_branches.add(label.split()[0])
+            else:
+                bad.setdefault(res[0], res[1])
     except AnalysisError as ex_:
         ctx.error(rule, f"differential execution cannot be carried out: {ex_}")
         return
